@@ -234,21 +234,29 @@ def build_config(rng, spec, size, formname=None, dtype=None):
     else:
         elements = None
     cfg = Config()
-    ue = _elem(uexpr)
-    if bkind == "cell":
-        ub = skfem.CellBasis(mesh, ue) if elements is None else skfem.CellBasis(mesh, ue, elements=elements)
-    elif bkind == "facet":
-        ub = skfem.FacetBasis(mesh, ue)
-    else:
-        ub = skfem.InteriorFacetBasis(mesh, ue, side=0)
-    if vexpr is None:
-        vb, vb_arg = ub, None
-    elif bkind == "interior":
-        vb = skfem.InteriorFacetBasis(mesh, _elem(vexpr), side=1, quadrature=ub.quadrature)
-        vb_arg = vb
-    else:
-        vb = ub.with_element(_elem(vexpr))
-        vb_arg = vb
+    try:
+        ue = _elem(uexpr)
+        if bkind == "cell":
+            ub = skfem.CellBasis(mesh, ue) if elements is None else skfem.CellBasis(mesh, ue, elements=elements)
+        elif bkind == "facet":
+            ub = skfem.FacetBasis(mesh, ue)
+        else:
+            ub = skfem.InteriorFacetBasis(mesh, ue, side=0)
+        if vexpr is None:
+            vb, vb_arg = ub, None
+        elif bkind == "interior":
+            vb = skfem.InteriorFacetBasis(mesh, _elem(vexpr), side=1, quadrature=ub.quadrature)
+            vb_arg = vb
+        else:
+            vb = ub.with_element(_elem(vexpr))
+            vb_arg = vb
+    except CaseTimeout:
+        raise
+    except Exception as e:
+        # Building the bases is not the subject of C16 (seen: InteriorFacetBasis on strongly distorted 'tri2quad'
+        # quadrilaterals -> "Newton iteration didn't converge" in MappingIsoparametric.invF; that belongs to
+        # C10/C14).  The case is dropped and counted.
+        raise Skip("basis-construction-failed:" + type(e).__name__ + ":" + str(e)[:60])
     if dtype is None:
         dtype = [np.float64, np.float64, np.complex128, np.complex64, np.float32][int(rng.integers(5))]
     if formname is None:
@@ -796,9 +804,9 @@ _enum_kernel = fam_enum(False)
 _enum_fine = fam_enum(True)
 
 FAMILIES = [
-    Family("enum-kernel", _enum_kernel, quick=66, thorough=lambda ctx: len(enum_table()) + 160,
+    Family("enum-kernel", _enum_kernel, quick=63, thorough=lambda ctx: len(enum_table()) + 160,
            budget={"quick": 40, "thorough": 500}),
-    Family("enum-fine", _enum_fine, quick=47, thorough=lambda ctx: len(enum_table()) + 100,
+    Family("enum-fine", _enum_fine, quick=46, thorough=lambda ctx: len(enum_table()) + 100,
            budget={"quick": 40, "thorough": 500}),
     Family("sampled-large", fam_sampled, quick=24, thorough=660, budget={"quick": 30, "thorough": 420}),
     Family("sweep-threadcounts", fam_sweep, quick=36, thorough=680, budget={"quick": 30, "thorough": 420}),
